@@ -154,6 +154,18 @@ CHECKS = [
                 'undebugged run.',
         'note': 'the command grammar is transcribed from DEBUGGER_HELP; only the featured loop can be debugged',
     },
+    {
+        'property_id': 'C05', 'level': 'exploration', 'design_ref': 'DESIGN.md 4 C04/C05, 3.7',
+        'technique': 'runtime monitoring: SYNC-point monitor reading every declared variable through the DeviceMemory hook, judged by a spec table transcribed from the macro documentation',
+        'text': 'The real bit library runs on the real interpreter; at a SYNC op between macro applications the monitor device reads '
+                'every cell of every declared variable (destinations, sources, cells beyond [:n], bystanders) and the branch '
+                'marker and compares them with a spec table transcribed from the doc comments, then pokes the next operand '
+                'values. Single-macro programs enumerate all operand values when the macro reads <= 16 bits (all 65536 pairs of '
+                '8-bit operands) and sample boundary-biased values above; sequence programs of 4-40 random applications over '
+                'shared variables check composition; widths 16/32/64; a slice of every program is re-run on the pure-Python loop.',
+        'note': 'the spec table is my transcription of the doc comments; undocumented operand aliasing is not generated; '
+                'bit.address_and_variable_xor and internal helper macros are not covered',
+    },
 ]
 
 _TODO = 'check not built yet in this session (work in progress; see DESIGN.md for the planned monitor)'
